@@ -380,6 +380,15 @@ def _params(case, ctx, d):
         return [val(1) for _ in range(int(rng.integers(0, 4)))]
     keys = ['dat_path', 'n_channels_dat', 'dtype', 'offset', 'sample_rate', 'hp_filtered', 'extra_1', '_version', '__private', 'trailing_', 'x', '_']
     data = {k: val() for k in keys if rng.random() < 0.8}
+    expd = dict(data)
+    if case['seed'][2] % 4 == 1:
+        # values that come out of NumPy computations (a channel count, a measured rate, a flag): they read back as the equal
+        # plain numbers
+        for k_, v_ in (('n_channels_dat', np.int64(385)), ('sample_rate', np.float64(29999.954846)), ('hp_filtered', np.True_),
+                       ('offset', np.uint16(16)), ('extra_1', np.float32(2.5))):
+            if rng.random() < 0.7:
+                data[k_] = v_
+                expd[k_] = v_.item()
     path = os.path.join(d, 'params.py')
     ctx.count(1, key=hkey('params', tuple(case['seed'])), nontrivial=any(isinstance(v, list) for v in data.values()),
               cell=('params',))
@@ -391,6 +400,6 @@ def _params(case, ctx, d):
     if not r.ok:
         ctx.violation('load_raised', data, 'read_python raised %r' % r.exc, {'fmt': 'params'}, tb=r.tb)
         return
-    dd = ref.diff(data, r.value)
+    dd = ref.diff(expd, r.value)
     if dd:
-        ctx.violation('params_roundtrip', data, dd, {'fmt': 'params'})
+        ctx.violation('params_roundtrip', {k_: repr(v_) for k_, v_ in data.items()}, dd, {'fmt': 'params'})
